@@ -44,7 +44,7 @@ def matrix_suite(ctx, search=False):
     ctx.rule = ("the generated programs of C04 (dispatch), C05 (queue) and C10 (copy/move over pre-filled storage) run on every configuration of the matrix "
                 "{g++ 12, clang++ 14} x {-O0,-O1,-O2} x {c++11,14,17,20} x {SingleThreading, std::mutex, SpinLock} x {hashed map, std::map} x {int key, std::string key} x "
                 "{event included in the prototype or not} x {by value, const reference} x {std::list, OrderedQueueList}; quick: 6 configurations covering every value of every axis, "
-                "thorough: 22; the callback-list programs of C01 on {g++ c++11 -O2 single, clang++ c++20 -O0 multi, spin}; every run is compared with the one model trace; "
+                "thorough: 22; the callback-list and ScopedRemover programs of C01 / C02 / C10 / C15 (removers constructed over pre-filled storage) on {g++ c++11 -O2 single, clang++ c++20 -O0 multi, spin, g++ c++14 -O1 spin}; every run is compared with the one model trace; "
                 "distinct = distinct (configuration, canonical output); non-trivial = >=2 listener calls")
     n = (70 if quick else 700) * (3 if search else 1)
     for profile in ("dispatch", "queue", "qcopy"):
@@ -57,7 +57,8 @@ def matrix_suite(ctx, search=False):
                            lambda f, s, o: f["calls_listener"] >= 2, prep=suite_q.with_cfg)
     # callback lists
     jobs = suite_cl.harness_jobs(("single",), std="c++11", opt="-O2", tag="_c11O2") + \
-        suite_cl.harness_jobs(("multi", "spin"), std="c++20", cxx="clang++-14", opt="-O0", tag="_clang20O0")
+        suite_cl.harness_jobs(("multi", "spin"), std="c++20", cxx="clang++-14", opt="-O0", tag="_clang20O0") + \
+        suite_cl.harness_jobs(("spin",), std="c++14", opt="-O1", tag="_c14O1")
     cb = vlib.build_many(jobs)
     cexes = []
     for j, (ok, path, log) in zip(jobs, cb):
@@ -65,13 +66,15 @@ def matrix_suite(ctx, search=False):
         if ok:
             cexes.append((j["out_name"], path, None))
     rng = random.Random("%d/C20/cl" % ctx.seed)
-    scripts = []
-    for i in range(n):
-        name = "C20_cl_%d_%d" % (ctx.seed, i)
-        scripts.append((name, suite_cl.gen_script(rng, name, rng.choice(["flat", "reent", "copy"]), 35)))
-    suiterun.run_suite(ctx, "matrix/cl", cexes, scripts, lambda exe, t, nm: suite_cl.run_batch(exe, t, nm),
-                       suite_cl.run_one, suite_cl.judge, lambda sc, out: suite_cl.classify(sc, suite_cl.strip_impl(out)[0]),
-                       lambda f, s, o: f["calls"] >= 2)
+    # (ScopedRemover scripts run on another model: they are batched separately)
+    for profiles, label in ((["flat", "reent", "copy"], "matrix/cl"), (["rem"], "matrix/rem")):
+        scripts = []
+        for i in range(n if label == "matrix/cl" else n // 2):
+            name = "C20_%s_%d_%d" % (label[-2:], ctx.seed, i)
+            scripts.append((name, suite_cl.gen_script(rng, name, rng.choice(profiles), 35)))
+        suiterun.run_suite(ctx, label, cexes, scripts, lambda exe, t, nm: suite_cl.run_batch(exe, t, nm),
+                           suite_cl.run_one, suite_cl.judge, lambda sc, out: suite_cl.classify(sc, suite_cl.strip_impl(out)[0]),
+                           lambda f, s, o: f["calls"] >= 2)
 
 
 register(
